@@ -136,8 +136,8 @@ impl Check for C12 {
     }
     fn cases(&self, tier: Tier) -> u64 {
         match tier {
-            Tier::Quick => 40_000,
-            Tier::Thorough => 1_500_000,
+            Tier::Quick => 300_000,
+            Tier::Thorough => 10_000_000,
         }
     }
     /// Direct cases: program text.
